@@ -543,11 +543,19 @@ def run_depth(case, ctx) -> None:
         return {"Linear": lambda: uu.Linear(3, 3, bias=True), "MLP": lambda: uu.MLP(4), "RMSNorm": lambda: uu.RMSNorm(3, elementwise_affine=True),
                 "Conv1d": lambda: uu.Conv1d(2, 2, 2), "LayerNorm": lambda: uu.LayerNorm(3, elementwise_affine=True)}[k]()
 
-    for cname in ("DepthSequential", "DepthModuleList"):
+    for cname in ("DepthSequential", "DepthSequential-OrderedDict", "DepthModuleList", "DepthModuleList-generator"):
         mods = [mk(k) for k in kinds]
         ctx.count("depth:containers-checked")
         try:
-            c = uu.DepthSequential(*mods) if cname == "DepthSequential" else uu.DepthModuleList(mods)
+            if cname == "DepthSequential":
+                c = uu.DepthSequential(*mods)
+            elif cname == "DepthSequential-OrderedDict":
+                from collections import OrderedDict
+                c = uu.DepthSequential(OrderedDict((f"layer_{i}", md) for i, md in enumerate(mods)))  # the other documented nn.Sequential form
+            elif cname == "DepthModuleList":
+                c = uu.DepthModuleList(mods)
+            else:
+                c = uu.DepthModuleList(md for md in mods)
         except Exception as e:
             ctx.violation(f"C08:{cname}:raises:{exc_key(e)}", repr(e), kinds=kinds)
             continue
@@ -558,7 +566,7 @@ def run_depth(case, ctx) -> None:
         mods = [mk(k) for k in kinds] + [torch.nn.Linear(2, 2)]
         rng.shuffle(mods)
         try:
-            (uu.DepthSequential(*mods) if cname == "DepthSequential" else uu.DepthModuleList(mods))
+            (uu.DepthSequential(*mods) if cname.startswith("DepthSequential") else uu.DepthModuleList(mods))
             ctx.violation(f"C08:{cname}:accepts-untagged-parameter", "a torch.nn.Linear inside the container was accepted")
         except ValueError:
             ctx.count("depth:untagged-refused")
